@@ -415,3 +415,114 @@ Proof.
   - apply forest_unflat; [apply Wt|apply Wt|apply I'|apply I'].
   - intros tj Hj. assert (X := proj1 (load_frame w (is_typed c) doc) tj Hj). now rewrite Eo in X.
 Qed.
+
+(* ---- ... and they refuse the same files: a UniqueConstraintError of the reader is one of the machine ---- *)
+Section Refuse.
+  Variable c : cls.
+  Variable ti : nat.
+  Variable deser : nat -> dict -> res dval.
+  Variable shash : text -> Z.
+
+  Lemma refuse_data es w t p d ex k : Inv c ti es w t -> parent_ok es p = true ->
+    let id := match ex with Some x => x | None => DInt (d_hash d) end in
+    add_node es (S (length es)) p (Machine.mk_info d id (Machine.default_kind t k) []) = Err EUnique ->
+    fst (load_entry ti w (imap es) (LData p d ex k)) = MErr Machine.EUnique.
+  Proof.
+    intros I Pok id H. destruct (parent_ok_spec c ti es w t p I Pok) as (Lp & pq & ch & Gp & Gc).
+    unfold add_node in H. destruct (existsb _ es) eqn:Ex; [|discriminate].
+    cbn [load_entry]. rewrite (imap_nth es p (i_idx _ _ _ _ _ I) Lp). unfold op_add. rewrite (i_tree _ _ _ _ _ I), Gp, Gc.
+    cbn [norm_before before_ok negb]. rewrite (i_calc _ _ _ _ _ I).
+    assert (Eid : (match ex with Some e => Some e | None => calc_id None d end) = Some id) by (unfold id; now destruct ex).
+    rewrite Eid, (collides_is_add_node c ti es w t p pq ch id I Gp Gc). cbn [i_did Machine.mk_info] in Ex. now rewrite Ex.
+  Qed.
+
+  Lemma refuse_ref es w t p r fc : Inv c ti es w t -> parent_ok es p = true -> find_ln r es = Some fc ->
+    add_node es (S (length es)) p (ln_info fc) = Err EUnique ->
+    fst (load_entry ti w (imap es) (LRef p r)) = MErr Machine.EUnique.
+  Proof.
+    intros I Pok Hf H. destruct (parent_ok_spec c ti es w t p I Pok) as (Lp & pq & ch & Gp & Gc).
+    unfold add_node in H. destruct (existsb _ es) eqn:Ex; [|discriminate].
+    assert (Wt := WFw_tree w ti t (i_wf _ _ _ _ _ I) (i_tree _ _ _ _ _ I)). assert (ND := wf_nodup t Wt).
+    unfold find_ln in Hf. apply find_some in Hf. destruct Hf as [Hfc Er]. apply Nat.eqb_eq in Er.
+    assert (Hin : In r (map ln_idx es)) by (rewrite <- Er; now apply in_map). rewrite (i_idx _ _ _ _ _ I) in Hin. apply in_seq in Hin.
+    assert (Rfc := i_rows _ _ _ _ _ I fc Hfc). rewrite Er in Rfc.
+    assert (Hs : exists s, In s (pre_f (forest_of t)) /\ rid s = r /\ rinfo s = ln_info fc).
+    { destruct (proj2 rows_member (forest_of t) 0 _ _ _ Rfc) as [(_ & x & Hx & Rx & Ix)|(s' & Hs' & _ & x & Hx & Rx & Ix)].
+      - exists x. split; [now apply in_pre_f_top|now split].
+      - exists x. split; [now apply (pre_f_child_closed _ s')|now split]. }
+    destruct Hs as (s & Ps & Rs & Is). assert (Gn := get_node_unique r (forest_of t) s ND Ps Rs).
+    assert (Ed : did_of r (forest_of t) = Some (i_did (ln_info fc))) by (unfold did_of; rewrite Gn; cbn; unfold rdid; now rewrite Is).
+    assert (Eds : rdid s = i_did (ln_info fc)) by (unfold rdid; now rewrite Is).
+    cbn [load_entry]. rewrite (imap_nth es p (i_idx _ _ _ _ _ I) Lp), (imap_nth es r (i_idx _ _ _ _ _ I)) by lia.
+    replace (Nat.eqb r 0) with false by (symmetry; apply Nat.eqb_neq; lia). rewrite (i_tree _ _ _ _ _ I).
+    unfold op_add_node. rewrite (i_tree _ _ _ _ _ I), Gn, Gp, Gc, Ed, andb_negb_r. cbn [andb].
+    match goal with |- context [if ?b then (MErr Machine.EUnique, w) else _] => destruct b end; [reflexivity|].
+    rewrite Eds, did_eqb_refl. cbn [negb norm_before before_ok].
+    replace (negb (typed t) && typed t) with false by (now destruct (typed t)).
+    now rewrite (collides_is_add_node c ti es w t p pq ch _ I Gp Gc), Ex.
+  Qed.
+
+  Lemma refuse_step es w t e le : Inv c ti es w t -> lentry_of c deser shash (S (length es)) e = Some le ->
+    from_list_step c deser shash es (S (length es)) e = Err EUnique ->
+    fst (load_entry ti w (imap es) le) = MErr Machine.EUnique.
+  Proof.
+    intros I Hl H. unfold from_list_step in H. unfold lentry_of in Hl.
+    destruct e as [| | | | |l|]; try discriminate. destruct l as [|pj [|data [|x l]]]; try discriminate.
+    destruct (is_intlike pj) as [pz|]; [|discriminate]. destruct (pz <? 0)%Z; [discriminate|].
+    destruct (parent_ok es (Z.to_nat pz)) eqn:Pok; [|discriminate]. cbn [negb] in H.
+    destruct data as [|b|z|fl|s|l|d]; try discriminate.
+    - destruct (is_intlike (JBool b)) as [rz|]; [|discriminate]. destruct (rz <=? 0)%Z; [discriminate|]. injection Hl as <-.
+      destruct (find_ln (Z.to_nat rz) es) as [fc|] eqn:Ef; [|discriminate]. now apply (refuse_ref es w t _ _ fc).
+    - destruct (is_intlike (JInt z)) as [rz|]; [|discriminate]. destruct (rz <=? 0)%Z; [discriminate|]. injection Hl as <-.
+      destruct (find_ln (Z.to_nat rz) es) as [fc|] eqn:Ef; [|discriminate]. now apply (refuse_ref es w t _ _ fc).
+    - injection Hl as <-. rewrite <- (dk_none c t (i_typed _ _ _ _ _ I)) in H.
+      exact (refuse_data es w t (Z.to_nat pz) (D (Z.of_nat (S (length es))) (Z.of_nat (S (length es))) (shash s) true s) None None I Pok H).
+    - set (kx := if is_typed c then _ else Ok None) in *. set (dx := match dget k_data_id d with None => _ | Some _ => _ end) in *.
+      destruct kx as [k|] eqn:Ek; [|discriminate]. destruct dx as [di|]; [|discriminate].
+      destruct (deser (S (length es)) d) as [dv|]; [|discriminate]. injection Hl as <-.
+      assert (Hk : Machine.default_kind t k = k).
+      { unfold Machine.default_kind. rewrite (i_typed _ _ _ _ _ I). unfold kx in Ek. destruct (is_typed c) eqn:Ety.
+        - destruct (dget k_kind d) as [[]|]; try discriminate; injection Ek as <-; [reflexivity|]. unfold default_kind. now rewrite Ety.
+        - now injection Ek as <-. }
+      rewrite <- Hk in H.
+      apply (refuse_data es w t (Z.to_nat pz) (D (Z.of_nat (S (length es))) (Z.of_nat (S (length es))) (dv_hash dv) (dv_isstr dv) (dv_name dv)) di k I Pok).
+      destruct di; exact H.
+  Qed.
+
+  Lemma refuse_loop : forall l es w t doc, Inv c ti es w t -> ldoc c deser shash (S (length es)) l = Some doc ->
+    from_list_go c deser shash l (S (length es)) es = Err EUnique ->
+    fst (load_go ti doc w (imap es)) = MErr Machine.EUnique.
+  Proof.
+    induction l as [|e l IH]; intros es w t doc I D H; cbn [from_list_go ldoc] in *; [discriminate|].
+    destruct (lentry_of c deser shash (S (length es)) e) as [le|] eqn:El; [|discriminate].
+    destruct (ldoc c deser shash (S (S (length es))) l) as [doc'|] eqn:Ed; [|discriminate]. injection D as <-. cbn [load_go].
+    destruct (from_list_step c deser shash es (S (length es)) e) as [es1|e1] eqn:Es.
+    - destruct (step_sim c ti deser shash es w t e es1 I Es) as (le' & w1 & t1 & E1 & E2 & I1).
+      assert (le' = le) by congruence. subst le'. rewrite E2.
+      destruct (step_shape c deser shash es _ e es1 Es) as (p & i & ->).
+      assert (L1 : S (S (length es)) = S (length (es ++ [(S (length es), p, i)]))) by (rewrite app_length; cbn; lia).
+      rewrite L1 in H, Ed. assert (X := IH _ w1 t1 doc' I1 Ed H). unfold imap in X |- *. rewrite map_app in X. exact X.
+    - injection H as ->. assert (X := refuse_step es w t e le I El Es).
+      destruct (load_entry ti w (imap es) le) as [[[|n [|n2 r]]|x] w1]; cbn [fst] in X |- *; try discriminate; exact X.
+  Qed.
+End Refuse.
+
+Theorem load_refuses_alike c deser shash w l doc : WFw w -> next w = 1 ->
+  from_list c deser shash l = Err EUnique -> ldoc c deser shash 1 l = Some doc ->
+  fst (op_load w (is_typed c) doc) = MErr Machine.EUnique /\ trees (snd (op_load w (is_typed c) doc)) = trees w.
+Proof.
+  intros Ww Nx H D. unfold from_list in H. destruct (from_list_go c deser shash l 1 []) as [es|e] eqn:Eg; [discriminate|]. injection H as ->.
+  set (ti := length (trees w)). set (t0 := TS [] [] [] (is_typed c) None). set (w0 := W (trees w ++ [t0]) (next w)).
+  assert (I0 : Inv c ti [] w0 t0).
+  { constructor; try reflexivity.
+    - unfold get_tree, w0, ti. cbn [trees]. apply nth_error_app_len.
+    - apply (PreserveCopy_WFx_new_empty w (is_typed c) None Ww).
+    - exact Nx.
+    - intros e [].
+    - intros e []. }
+  assert (X := refuse_loop c ti deser shash l [] w0 t0 doc I0 D Eg).
+  assert (E : fst (op_load w (is_typed c) doc) = MErr Machine.EUnique).
+  { unfold op_load. fold ti. fold t0. fold w0. change [0] with (imap []).
+    destruct (load_go ti doc w0 (imap [])) as [[r|x] w1]; cbn [fst] in X |- *; [discriminate|exact X]. }
+  split; [exact E|]. exact (proj1 (proj2 (load_frame w (is_typed c) doc)) _ E).
+Qed.
